@@ -2090,6 +2090,24 @@ skip_false_if_block(bool consider_elifs) {
         }
         level--;
       }
+    } else if (c == '"' || c == '\'') {
+      // A string or character literal in the skipped text.  Step over it (up
+      // to the closing quote or the end of the line), so that its contents
+      // are not mistaken for the start of a comment.
+      int quote_mark = c;
+      c = get();
+      while (c != EOF && c != quote_mark && c != '\n') {
+        if (c == '\\') {
+          c = get();
+          if (c == EOF || c == '\n') {
+            break;
+          }
+        }
+        c = get();
+      }
+      if (c == quote_mark) {
+        c = skip_comment(get());
+      }
     } else {
       c = skip_comment(get());
     }
